@@ -494,7 +494,7 @@ fn minimise(p: &Value, class: &str, w: &World, cfg: &Cfg, slot: usize, budget: u
             i += 1;
         }
     }
-    for (k, val) in [("authorization", Value::Null), ("no_ssl", json!(false)), ("is_one_of", json!(false)), ("specify_by_url", json!(false)), ("url_first", json!(true)), ("header_eq", json!(true)), ("path", json!("/graphql"))] {
+    for (k, val) in [("authorization", Value::Null), ("no_ssl", json!(false)), ("is_one_of", json!(false)), ("specify_by_url", json!(false)), ("url_first", json!(true)), ("header_eq", json!(true)), ("path", json!("/graphql")), ("env", json!("clean")), ("output_form", json!("abs"))] {
         let mut c = best.clone();
         c[k] = val;
         try_plan(c, &mut best, &mut attempts);
